@@ -11,7 +11,7 @@ import os, sys, math
 from vlib import *
 import tvgen
 
-PROPS = ['Props/Properties_C41.v', 'Props/Properties_C41_func.v', 'Props/Properties_C41_spline.v']
+PROPS = ['Props/Properties_C41.v', 'Props/Properties_C41_func.v', 'Props/Properties_C41_spline.v', 'Props/Properties_C41_fit.v']
 ONE_ARG = ('k_stepUp', 'k_dstepUp', 'k_d2stepUp', 'k_d3stepUp', 'k_stepDown', 'k_dstepDown', 'k_d2stepDown', 'k_d3stepDown')
 
 class StepArgs:
@@ -200,6 +200,35 @@ def spline_correspondence(ctx, nspl):
     if dis:
         ctx.broken.append(('correspondence:C41:spline', 'spline evaluation model and implementation differ: %s (%d disagreements)' % (dis[0], len(dis))))
 
+K_HANG = 'spline-fit-never-returns'
+def fit_certificates(ctx, n):
+    """spline FITTING certificates on the implementation (the fitting is not modelled): interpolation of the control points,
+    reproduction of polynomials of degree < m for any smoothing parameter and every mode, refit / reported-statistics / DOF-target
+    consistency, residual monotone in the smoothing parameter, every fit returns.  Run on EVERY check run."""
+    exe = ctx.bdir('C41_spline_fit')
+    if not ctx.cxx(os.path.join(VERIF, 'harness', 'C41_spline_fit.cpp'), exe):
+        ctx.broken.append(('certificates:C41:fit', 'fit certificate harness does not compile')); return
+    try: rc, out, err = sh([exe, str(ctx.seed), str(n)], timeout=600)
+    except Exception as e:
+        ctx.broken.append(('certificates:C41:fit', 'fit certificate harness did not finish: %r' % (e,))); return
+    fails = [l for l in out.split('\n') if l.startswith('FAIL')]
+    done = [l for l in out.split('\n') if l.startswith('DONE')]
+    nev = int(done[0].split()[1]) if done else 0
+    ctx.extra['spline_fit_certificates'] = {'predicate_evaluations': nev, 'failures': len(fails), 'fits_per_degree': n // 4,
+        'predicates': ['interpolation of control points (p=0)', 'polynomial of degree < m reproduced (fixed p, GCV, error variance, DOF)',
+                       'refit with reported p gives the same coefficients and statistics', 'fitFromDOF hits its target', 'residual monotone in p', 'every fit returns']}
+    ctx.add_cases(nev)
+    if not done: ctx.broken.append(('certificates:C41:fit', 'fit certificate harness crashed rc=%s %s' % (rc, err[-300:])))
+    seen = set()
+    for f in fails:
+        key = f.split()[1]
+        if key in seen: continue
+        seen.add(key)
+        if key == 'fit_never_returns':
+            ctx.report(K_HANG, 'a SplineFitter fit never returns: ' + f[:400], {'replay_cmd': '%s %d %d' % (exe, ctx.seed, n), 'failing_input': f})
+        else:
+            ctx.report('impl:' + key, 'implementation violates C41 spline fitting certificate: ' + f[:600], {'replay_cmd': '%s %d %d' % (exe, ctx.seed, n), 'failing_input': f})
+
 def search(ctx, n):
     """failing-input search on the implementation: the property's predicates by finite differences"""
     exe = ctx.bdir('C41_search')
@@ -248,6 +277,8 @@ def run(ctx):
     ctx.log('function-object correspondence done')
     spline_correspondence(ctx, 60 if quick else 600)
     ctx.log('spline evaluation correspondence done')
+    fit_certificates(ctx, 400 if quick else 8000)
+    ctx.log('spline fitting certificates done')
     ctx.cov['rule'] = ('(a) translator validation: each of the 12 translated step kernels on arguments inside the asserted domain (0, 1, 1/2 and uniform); '
                        '(b) correspondence: per kind (Constant, Linear, Polynomial, Sinusoid, Step, raw stepAny family) generated parameters, derivative '
                        'component lists / orders around every case split (order vs degree, Sinusoid orders 0..13, Step before/at/inside/after both directions, '
